@@ -486,6 +486,22 @@ Definition run_C11 (dn : N) (sep : option byte) (outfmt : option str) (ftype : o
       end;
       VL (map VS (comment_lines (content_lines univ content)))].
 
+(* a history of reads in one process: the model is pure, so every step is the model applied to that step's input
+   (state-independence stream); [domain flag of all steps; results; comment lines per step] *)
+Definition hstep : Type := (N * option byte * option str * option str * bool * str)%type.
+Definition hstep_wf (s : hstep) : bool :=
+  let '(dn, sep, outfmt, ftype, univ, content) := s in wf_C11 (dialect_of_N dn) sep outfmt ftype univ content.
+Definition hstep_result (s : hstep) : val :=
+  let '(dn, sep, outfmt, ftype, univ, content) := s in
+  match snd (read_content (dialect_of_N dn) sep outfmt ftype univ content) with
+  | Err e => VE e
+  | Ok fts => VL (map feat_val fts)
+  end.
+Definition hstep_comments (s : hstep) : val :=
+  let '(dn, sep, outfmt, ftype, univ, content) := s in VL (map VS (comment_lines (content_lines univ content))).
+Definition run_C11_hist (steps : list hstep) : val :=
+  VL [VB (forallb hstep_wf steps); VL (map hstep_result steps); VL (map hstep_comments steps)].
+
 (* ------------------------------------------------------------------ specification side *)
 
 (* abstract hit: what every dialect has to carry *)
